@@ -91,11 +91,11 @@ reader_initialize(struct channel* self, struct channel_reader* reader)
 {
     if (reader->id > 0)
         return 1;
+    if (self->holds.n >= MAX_READERS)
+        return 0; // the hold table is full
     reader->id = ++self->holds.n;
     self->holds.cycles[reader->id - 1] = self->cycle;
     self->holds.pos[reader->id - 1] = 0;
-    if (self->holds.n >= MAX_READERS)
-        return 0;
     return 1;
 }
 
@@ -165,7 +165,12 @@ channel_read_map(struct channel* self, struct channel_reader* reader)
     int hold_moved = 0;
     lock_acquire(&self->lock);
 
-    reader_initialize(self, reader);
+    if (!reader_initialize(self, reader)) {
+        // no slot left for another reader: it gets nothing, and is told so
+        reader->status = Channel_Error;
+        lock_release(&self->lock);
+        return (struct slice){ 0 };
+    }
 
     size_t* const cycle = self->holds.cycles + reader->id - 1;
     size_t* const pos = self->holds.pos + reader->id - 1;
